@@ -108,29 +108,49 @@ Section Safe.
   Qed.
 
   (** ** retired_array::push after the retire was announced *)
+  Definition push_post (v : lview) (r : nat) (rest : list claim) (Q : option bool -> lview -> Prop) : Prop :=
+    (forall o, o <> Some false -> Q o (with_cl v rest)) /\
+    (forall e, e <> [] -> Q (Some false) (with_cl v (ClAct r e e :: rest))).
+
+  Lemma snoc_not_nil {X} (l : list X) x : l ++ [x] <> [].
+  Proof. destruct l; discriminate. Qed.
+
+  Lemma safe_push_tail t r l p v0 rest (Q : option bool -> lview -> Prop) :
+    v_cl v0 = ClAct r l (l ++ [p]) :: rest -> push_post v0 r rest Q ->
+    safe t (if Nat.leb (cR c) (List.length l) then Emit [EvCli "overflow" [p]] (Ret None)
+            else Act (a_st_cur r (l ++ [p])) (fun _ => Ret (Some (Nat.ltb (S (List.length l)) (cR c))))) v0 Q.
+  Proof.
+    intros Hcl (HQ1 & HQ2). destruct (Nat.leb_spec (cR c) (List.length l)) as [Hfull|Hroom].
+    - cbn [Conc.safe]. intros g1 a1 tr1 HI1 Hv1.
+      exists (set_claims a1 t rest (set_eff (a_eff a1) r None)).
+      split; [eapply inv_emit_overflow; [exact HI1|rewrite Hv1; exact Hcl|exact Hfull]|]. split; [apply frame_set_claims|].
+      rewrite view_set_claims_same, Hv1. apply HQ1. discriminate.
+    - cbn [Conc.safe]. intros g1 a1 tr1 HI1 Hv1. cbn [a_st_cur fst snd].
+      destruct (Nat.ltb_spec (S (List.length l)) (cR c)) as [Hlt|Hge].
+      + exists (set_claims a1 t rest (set_eff (a_eff a1) r None)).
+        split; [eapply inv_st_cur; [exact HI1|rewrite Hv1; exact Hcl|discriminate|]|].
+        { intros _. rewrite app_length. cbn. lia. }
+        split; [apply frame_set_claims|]. rewrite view_set_claims_same, Hv1. apply HQ1. discriminate.
+      + exists (set_claims a1 t (ClAct r (l ++ [p]) (l ++ [p]) :: rest) (set_eff (a_eff a1) r (Some (l ++ [p])))).
+        split; [eapply inv_st_cur_keep; [exact HI1|rewrite Hv1; exact Hcl|discriminate]|].
+        split; [apply frame_set_claims|]. rewrite view_set_claims_same, Hv1. apply HQ2. apply snoc_not_nil.
+  Qed.
+
   Lemma safe_push1 t r p v rest (Q : option bool -> lview -> Prop) :
-    v_cl v = ClPush r p :: rest -> (forall o, Q o (with_cl v rest)) -> safe t (push c r p) v Q.
+    v_cl v = ClPush r p :: rest -> push_post v r rest Q -> safe t (push c r p) v Q.
   Proof.
     intros Hcl HQ. unfold push. act. cbn [a_ld_cur fst snd vL].
     set (l := r_ret (get_rec g r)).
     exists (set_claims a t (ClAct r l (l ++ [p]) :: rest) (set_eff (a_eff a) r (Some (l ++ [p])))).
     split; [apply inv_ld_cur_push; [exact HI|now rewrite Hv]|]. split; [apply frame_set_claims|].
     rewrite view_set_claims_same, Hv.
-    destruct (Nat.leb (cR c) (List.length l)).
-    - cbn [Conc.safe]. intros g1 a1 tr1 HI1 Hv1.
-      exists (set_claims a1 t rest (set_eff (a_eff a1) r None)).
-      split; [eapply inv_emit_overflow; [exact HI1|rewrite Hv1; reflexivity]|]. split; [apply frame_set_claims|].
-      rewrite view_set_claims_same, Hv1, with_cl_cl. apply HQ.
-    - cbn [Conc.safe]. intros g1 a1 tr1 HI1 Hv1. cbn [a_st_cur fst snd].
-      exists (set_claims a1 t rest (set_eff (a_eff a1) r None)).
-      split; [eapply inv_st_cur; [exact HI1|rewrite Hv1; reflexivity|discriminate]|]. split; [apply frame_set_claims|].
-      rewrite view_set_claims_same, Hv1, with_cl_cl. apply HQ.
+    apply (safe_push_tail t r l p _ rest); [reflexivity|]. exact HQ.
   Qed.
 
   (** ... and while help_scan moves the cell x of record h *)
   Lemma safe_push2 t r h srcl x tl v rest (Q : option bool -> lview -> Prop) :
     v_rec v = Some r -> v_scan v = None -> v_cl v = ClAct h srcl (x :: tl) :: rest -> (forall cl, In cl rest -> crec cl <> r) -> h <> r ->
-    (forall o, Q o (with_cl v (ClAct h srcl tl :: rest))) -> safe t (push c r x) v Q.
+    push_post v r (ClAct h srcl tl :: rest) Q -> safe t (push c r x) v Q.
   Proof.
     intros Hr Hns Hcl Hrest Hhr HQ. unfold push. act. cbn [a_ld_cur fst snd vL].
     set (l := r_ret (get_rec g r)).
@@ -139,15 +159,7 @@ Section Safe.
     split; [apply inv_ld_cur_move; [exact HI|now rewrite Hv|now rewrite Hv|now rewrite Hv|exact Hrest|exact Hhr]|].
     split; [apply frame_set_claims|].
     rewrite view_set_claims_same, Hv.
-    destruct (Nat.leb (cR c) (List.length l)).
-    - cbn [Conc.safe]. intros g1 a1 tr1 HI1 Hv1.
-      exists (set_claims a1 t (ClAct h srcl tl :: rest) (set_eff (a_eff a1) r None)).
-      split; [eapply inv_emit_overflow; [exact HI1|rewrite Hv1; reflexivity]|]. split; [apply frame_set_claims|].
-      rewrite view_set_claims_same, Hv1, with_cl_cl. apply HQ.
-    - cbn [Conc.safe]. intros g1 a1 tr1 HI1 Hv1. cbn [a_st_cur fst snd].
-      exists (set_claims a1 t (ClAct h srcl tl :: rest) (set_eff (a_eff a1) r None)).
-      split; [eapply inv_st_cur; [exact HI1|rewrite Hv1; reflexivity|discriminate]|]. split; [apply frame_set_claims|].
-      rewrite view_set_claims_same, Hv1, with_cl_cl. apply HQ.
+    apply (safe_push_tail t r l x _ (ClAct h srcl tl :: rest)); [reflexivity|]. exact HQ.
   Qed.
 
   (** ** stage 1 of both scans *)
@@ -200,25 +212,51 @@ Section Safe.
   Qed.
 
   (** ** stage 2: disposer calls + the store of current_, the thread holding the claim [ClAct r l l] *)
+  Lemma retire_once_NoDup g a tr t r l e :
+    Inv c g a tr -> view a t = with_cl (view a t) (v_cl (view a t)) -> In (ClAct r l e) (v_cl (view a t)) ->
+    retire_once tr -> (forall p, (countZ p e <= 1)%Z).
+  Proof.
+    intros HI _ Hin Hro p.
+    destruct (i_claim _ _ _ _ HI t _ Hin) as (Hown & _ & Heff). cbn in Hown, Heff.
+    assert (Hlt := owns_lt _ _ _ _ _ _ HI Hown).
+    pose proof (pend_upto_ge p g a _ _ Hlt) as Hge. unfold effc in Hge. rewrite Heff in Hge.
+    pose proof (i_bal _ _ _ _ HI p) as Hb. unfold pend in Hb.
+    pose proof (cnt_nonneg "dispose" p tr). pose proof (cnt_nonneg "overflow" p tr). specialize (Hro p). lia.
+  Qed.
+
+  Lemma retire_once_prefix tr es : retire_once (tr ++ es) -> retire_once tr.
+  Proof. intros H p. specialize (H p). pose proof (cnt_le_app "retire" p tr es). lia. Qed.
+
   Lemma safe_stage2_tail t r l v rest sv freed kept (Q : list Z -> lview -> Prop) :
-    v_rec v = Some r -> v_cl v = ClAct r l l :: rest -> v_scan v = Some sv -> sc_todo sv = Some [] ->
+    v_rec v = Some r -> v_cl v = ClAct r l l :: rest -> v_scan v = Some sv -> sc_todo sv = Some [] -> sc_cur sv = None ->
     (forall p, countZ p l = (countZ p freed + countZ p kept)%Z) ->
+    List.length kept <= List.length l -> incl kept (sc_coll sv) ->
     (forall g a tr, Inv c g a tr -> view a t = v ->
        forall p, In p freed -> (cInplace c = true -> retire_once tr) -> ~ In p (sc_coll sv)) ->
     Q kept (with_cl v rest) ->
     safe t (Emit (map ev_dispose freed) (Act (a_st_cur r kept) (fun _ => Ret kept))) v Q.
   Proof.
-    intros Hrec Hcl Hsv Htodo Hsplit Hfr HQ. act.
+    intros Hrec Hcl Hsv Htodo Hcur Hsplit Hlen Hincl Hfr HQ. act.
     exists (set_claims a t (ClAct r l kept :: rest) (set_eff (a_eff a) r (Some kept))).
     split; [|split; [apply frame_set_claims|]].
-    - apply inv_emit_dispose; [exact HI|now rewrite Hv|exact Hsplit| |].
+    - apply inv_emit_dispose; [exact HI|now rewrite Hv|exact Hsplit|exact Hlen| |].
       + eapply safe_cl_dispose; [exact HI|rewrite Hv; exact Hsv|exact Htodo|]. apply (Hfr g a tr HI Hv).
       + eapply (pre_cl_dispose c g a tr t sv r l l rest); [exact HI|now rewrite Hv|now rewrite Hv|now rewrite Hv|].
         intros p Hp. apply countZ_pos_In. apply countZ_pos_In in Hp. rewrite (Hsplit p).
         pose proof (countZ_nonneg p kept). lia.
     - rewrite view_set_claims_same, Hv. cbn [Conc.safe]. intros g1 a1 tr1 HI1 Hv1. cbn [a_st_cur fst snd].
       exists (set_claims a1 t rest (set_eff (a_eff a1) r None)).
-      split; [eapply inv_st_cur; [exact HI1|rewrite Hv1; reflexivity|discriminate]|]. split; [apply frame_set_claims|].
+      split; [eapply inv_st_cur; [exact HI1|rewrite Hv1; reflexivity|discriminate|]|].
+      { intros (Hl & Hhp & Hro). cbn in Hl.
+        assert (Hsv1 : v_scan (view a1 t) = Some sv) by (rewrite Hv1; exact Hsv).
+        pose proof (i_collsz _ _ _ _ HI1 t sv Hsv1) as Hcz. unfold collsz_ok in Hcz. rewrite Htodo, Hcur in Hcz. cbn in Hcz.
+        assert (Hnd : NoDup kept).
+        { apply count_le1_NoDup. eapply (retire_once_NoDup g1 a1 tr1 t r l kept); [exact HI1|now rewrite with_cl_id| |].
+          - rewrite Hv1. cbn. now left.
+          - eapply retire_once_prefix. exact Hro. }
+        pose proof (NoDup_incl_length Hnd Hincl) as Hle.
+        assert (cH c * List.length (g_list g1) <= cH c * cP c) by (apply Nat.mul_le_mono_l; exact Hl). lia. }
+      split; [apply frame_set_claims|].
       rewrite view_set_claims_same, Hv1, with_cl_cl. exact HQ.
   Qed.
 
@@ -238,8 +276,10 @@ Section Safe.
     exists (set_claims a t (ClAct r l l :: v_cl (view a t)) (set_eff (a_eff a) r (Some l))).
     split; [apply inv_ld_cur_fresh; [exact HI|rewrite Hv; left; exact Hrec|now rewrite Hv]|]. split; [apply frame_set_claims|].
     rewrite view_set_claims_same, Hv.
-    eapply (safe_stage2_tail t r l _ (v_cl v)); [exact Hrec|reflexivity|exact Hsv|reflexivity| | |].
+    eapply (safe_stage2_tail t r l _ (v_cl v)); [exact Hrec|reflexivity|exact Hsv|reflexivity|reflexivity| | | | |].
     - intros p. apply classic_split.
+    - apply filter_length_le.
+    - intros p. apply classic_kept_incl.
     - intros g1 a1 tr1 _ _ p Hp _. cbn. now apply classic_freed_notin in Hp.
     - rewrite with_cl_cl, with_cl_id. apply HQ. intros p. apply classic_kept_incl.
   Qed.
@@ -257,8 +297,10 @@ Section Safe.
     assert (Hin : In (ClAct r l l) (v_cl (view a t))) by (rewrite Hv, Hcl; now left).
     destruct (i_claim _ _ _ _ HI t _ Hin) as (_ & Hact & _). cbn in Hact. rewrite Hact.
     exists a. split; [apply inv_acc; [exact HI|discriminate]|]. split; [apply frame_refl|]. rewrite Hv.
-    eapply (safe_stage2_tail t r l v rest); [exact Hrec|exact Hcl|exact Hsv|reflexivity| | |].
+    eapply (safe_stage2_tail t r l v rest); [exact Hrec|exact Hcl|exact Hsv|reflexivity|reflexivity| | | | |].
     - intros p. apply classic_split.
+    - apply filter_length_le.
+    - intros p. apply classic_kept_incl.
     - intros g1 a1 tr1 _ _ p Hp _. cbn. now apply classic_freed_notin in Hp.
     - apply HQ. intros p. apply classic_kept_incl.
   Qed.
@@ -295,18 +337,6 @@ Section Safe.
     intros kept Hk. apply HQ; assumption.
   Qed.
 
-  Lemma retire_once_NoDup g a tr t r l e :
-    Inv c g a tr -> view a t = with_cl (view a t) (v_cl (view a t)) -> In (ClAct r l e) (v_cl (view a t)) ->
-    retire_once tr -> (forall p, (countZ p e <= 1)%Z).
-  Proof.
-    intros HI _ Hin Hro p.
-    destruct (i_claim _ _ _ _ HI t _ Hin) as (Hown & _ & Heff). cbn in Hown, Heff.
-    assert (Hlt := owns_lt _ _ _ _ _ _ HI Hown).
-    pose proof (pend_upto_ge p g a _ _ Hlt) as Hge. unfold effc in Hge. rewrite Heff in Hge.
-    pose proof (i_bal _ _ _ _ HI p) as Hb. unfold pend in Hb.
-    pose proof (cnt_nonneg "dispose" p tr). pose proof (cnt_nonneg "overflow" p tr). specialize (Hro p). lia.
-  Qed.
-
   Lemma scan_view_self v sv : v_scan v = Some sv -> scan_view v sv (v_seen v) = v.
   Proof. destruct v; cbn; intros ->; reflexivity. Qed.
 
@@ -327,8 +357,10 @@ Section Safe.
       + eapply safe_classic_scan_held; [exact Hrec|reflexivity|exact Hsv|].
         intros kept sv' seen Hi Hk. cbn in Hi. change (Q kept (scan_view v sv' seen)). apply HQ; assumption.
       + apply safe_stage1; [exact Hsv|]. intros hs seen Hincl.
-        eapply (safe_stage2_tail t r l _ (v_cl v)); [exact Hrec|reflexivity|reflexivity|reflexivity| | |].
+        eapply (safe_stage2_tail t r l _ (v_cl v)); [exact Hrec|reflexivity|reflexivity|reflexivity|reflexivity| | | | |].
         * intros p. apply inplace_split.
+        * apply inplace_kept_length.
+        * intros p. apply inplace_kept_incl.
         * intros g1 a1 tr1 HI1 Hv1 p Hp Hro. cbn [sc_coll].
           apply (inplace_freed_notin hs l p); [|exact Hp].
           apply count_le1_NoDup. eapply (retire_once_NoDup g1 a1 tr1 t r l l); [exact HI1| | |exact (Hro Hip)].
@@ -363,6 +395,61 @@ Section Safe.
     - apply safe_classic_scan_fresh; auto.
   Qed.
 
+  (** the scans entered with the claim of the push that filled the array *)
+  Lemma safe_inplace_scan_held t r x0 l0 v rest (Q : list Z -> lview -> Prop) :
+    cInplace c = true -> v_rec v = Some r -> v_cl v = ClAct r (x0 :: l0) (x0 :: l0) :: rest ->
+    v_scan v = Some (mkScan [] None None) ->
+    (forall kept sv' seen, incl (v_seen v) seen -> incl kept (sc_coll sv') -> Q kept (with_cl (scan_view v sv' seen) rest)) ->
+    safe t (inplace_scan c r) v Q.
+  Proof.
+    intros Hip Hrec Hcl Hsv HQ. unfold inplace_scan. act. cbn [a_ld_cur fst snd vL].
+    set (l := x0 :: l0) in *.
+    assert (Hin : In (ClAct r l l) (v_cl (view a t))) by (rewrite Hv, Hcl; now left).
+    destruct (i_claim _ _ _ _ HI t _ Hin) as (_ & Hact & _). cbn in Hact. rewrite Hact.
+    exists a. split; [apply inv_acc; [exact HI|discriminate]|]. split; [apply frame_refl|]. rewrite Hv.
+    unfold l at 1. cbn iota. fold l.
+    destruct (existsb Z.odd l).
+    - eapply safe_classic_scan_held; [exact Hrec|exact Hcl|exact Hsv|exact HQ].
+    - apply safe_stage1; [exact Hsv|]. intros hs seen Hincl.
+      eapply (safe_stage2_tail t r l _ rest); [exact Hrec|exact Hcl|reflexivity|reflexivity|reflexivity| | | | |].
+      + intros p. apply inplace_split.
+      + apply inplace_kept_length.
+      + intros p. apply inplace_kept_incl.
+      + intros g1 a1 tr1 HI1 Hv1 p Hp Hro. cbn [sc_coll].
+        apply (inplace_freed_notin hs l p); [|exact Hp].
+        apply count_le1_NoDup. eapply (retire_once_NoDup g1 a1 tr1 t r l l); [exact HI1| | |exact (Hro Hip)].
+        * now rewrite with_cl_id.
+        * rewrite Hv1. cbn. rewrite Hcl. now left.
+      + apply HQ; [exact Hincl|]. intros p. apply inplace_kept_incl.
+  Qed.
+
+  Lemma scan_done_view_held v sv seen rest :
+    v_scan v = None ->
+    with_scan (with_cl (scan_view (with_scan v (Some (mkScan [] None None))) sv seen) rest) None = with_seen (with_cl v rest) seen.
+  Proof. destruct v; cbn; intros ->; reflexivity. Qed.
+
+  Lemma safe_scan_held t r e v rest (Q : unit -> lview -> Prop) :
+    v_rec v = Some r -> v_scan v = None -> e <> [] -> v_cl v = ClAct r e e :: rest ->
+    (forall seen', incl (v_seen v) seen' -> Q tt (with_seen (with_cl v rest) seen')) ->
+    safe t (scan c r) v Q.
+  Proof.
+    intros Hr Hns Hne Hcl HQ. unfold scan. act. cbn [a_faa_scan fst snd].
+    exists (upd_view a t (with_scan (view a t) (Some (mkScan [] None None)))).
+    split; [apply (inv_scan_begin c g a tr t r HI); now rewrite Hv|]. split; [apply frame_upd_view|].
+    rewrite view_upd_same, Hv. apply Conc.safe_bind.
+    set (v1 := with_scan v (Some (mkScan [] None None))).
+    assert (Hpost : forall kept sv' seen, incl (v_seen v1) seen -> incl kept (sc_coll sv') ->
+              safe t (Emit [EvCli "g_scan_end" (zn r :: kept)] (Ret tt)) (with_cl (scan_view v1 sv' seen) rest) Q).
+    { intros kept sv' seen Hincl Hk. cbn [Conc.safe]. intros g1 a1 tr1 HI1 Hv1.
+      exists (upd_view a1 t (with_scan (view a1 t) None)).
+      split; [apply (inv_scan_end c g1 a1 tr1 t r kept sv' HI1); [now rewrite Hv1|exact Hk]|].
+      split; [apply frame_upd_view|]. rewrite view_upd_same, Hv1. unfold v1. rewrite scan_done_view_held by exact Hns.
+      apply HQ. exact Hincl. }
+    destruct (cInplace c) eqn:Ei.
+    - destruct e as [|x0 l0]; [contradiction|]. eapply safe_inplace_scan_held; eauto.
+    - eapply safe_classic_scan_held; eauto.
+  Qed.
+
   (** ** retire *)
   Lemma with_seen_self v : with_seen v (v_seen v) = v.
   Proof. destruct v; reflexivity. Qed.
@@ -372,11 +459,12 @@ Section Safe.
     (forall seen', incl (v_seen v) seen' -> Q tt (with_seen (with_cl v rest) seen')) ->
     safe t (retire c r p) v Q.
   Proof.
-    intros Hr Hns Hcl Hrest HQ. unfold retire. apply Conc.safe_bind. eapply safe_push1; [exact Hcl|].
-    intros [[|]|].
-    - cbn [Conc.safe]. rewrite <- (with_seen_self (with_cl v rest)). apply HQ. apply incl_refl.
-    - apply safe_scan; auto.
-    - cbn [Conc.safe]. rewrite <- (with_seen_self (with_cl v rest)). apply HQ. apply incl_refl.
+    intros Hr Hns Hcl Hrest HQ. unfold retire. apply Conc.safe_bind. eapply safe_push1; [exact Hcl|]. split.
+    - intros o Ho. assert (HR : Q tt (with_cl v rest)).
+      { rewrite <- (with_seen_self (with_cl v rest)). apply HQ. apply incl_refl. }
+      destruct o as [[|]|]; [exact HR|congruence|exact HR].
+    - intros e He. eapply (safe_scan_held t r e _ rest); [exact Hr|exact Hns|exact He|reflexivity|].
+      intros seen' Hi. apply HQ. exact Hi.
   Qed.
 
   (** ** help_scan *)
@@ -397,12 +485,13 @@ Section Safe.
       { intros seen1 Hi1. apply IH; [exact Hr|exact Hns|reflexivity|].
         intros seen' Hi'. change (Q tt (with_seen (with_cl v (ClAct h srcl [] :: rest)) seen')).
         apply HQ. eapply incl_tran; eauto. }
-      intros [[|]|].
-      + rewrite <- (with_seen_self v1). apply Hloop. apply incl_refl.
-      + apply Conc.safe_bind. apply safe_scan; [exact Hr|exact Hns| |].
-        * intros cl [<-|Hin]; [exact Hhr|now apply Hrest].
-        * intros seen1 Hi1. apply Hloop. exact Hi1.
-      + rewrite <- (with_seen_self v1). apply Hloop. apply incl_refl.
+      split.
+      + intros o Ho. assert (HR : safe t (move_loop c r tl) v1 Q).
+        { rewrite <- (with_seen_self v1). apply Hloop. apply incl_refl. }
+        destruct o as [[|]|]; [exact HR|congruence|exact HR].
+      + intros e He. apply Conc.safe_bind.
+        eapply (safe_scan_held t r e _ (ClAct h srcl tl :: rest)); [exact Hr|exact Hns|exact He|reflexivity|].
+        intros seen1 Hi1. apply Hloop. exact Hi1.
   Qed.
 
   Definition base (o : option nat) (k : nat) (seen : list nat) : lview := mkV o [] k None [] seen.
@@ -445,7 +534,9 @@ Section Safe.
       (* interthread_clear *)
       act. cbn [a_xchg_cur fst snd].
       exists (set_claims a t [] (set_eff (a_eff a) h None)).
-      split; [eapply inv_st_cur; [exact HI|rewrite Hv; reflexivity|discriminate]|]. split; [apply frame_set_claims|].
+      split; [eapply inv_st_cur; [exact HI|rewrite Hv; reflexivity|discriminate|]|].
+      { intros (_ & Hhp & _). cbn. lia. }
+      split; [apply frame_set_claims|].
       rewrite view_set_claims_same, Hv. cbn [with_cl v_held v_rec v_clr v_scan v_cl v_seen]. clear g a tr HI Hv.
       (* free_.store( true ) *)
       act. cbn [a_st_free fst snd]. exists a.
